@@ -16,7 +16,7 @@ import itertools, json, random, re
 import common as C
 
 ID = "C02"
-COQ_TARGETS = ["Properties/C02.vo", "GenFacts/ParserFacts.vo"]
+COQ_TARGETS = ["Properties/C02.vo", "GenFacts/ParserFacts.vo", "GenFacts/ParserSrcFacts.vo"]
 MODEL_TARGETS = ["Model/Parser.vo", "Model/Printer.vo"]
 IMPORTS = "From Ka Require Import Model.Parser Model.Printer.\nOpen Scope string_scope.\n"
 
